@@ -19,6 +19,7 @@ import AstGrepVerif.Lemmas.Outermost
 import AstGrepVerif.Lemmas.DiffOrder
 import AstGrepVerif.Lemmas.Interactive
 import AstGrepVerif.Props.C19
+import AstGrepVerif.Props.C06
 import AstGrepVerif.Props.C03
 import AstGrepVerif.Lemmas.WfBridge
 
@@ -141,6 +142,18 @@ theorem replaceAll_valid (m : Tree → Bool) (matchLen : Tree → Option Nat) (i
     ∃ es, replaceAll m matchLen ins n = .ok es ∧ Valid src.length (es.map REdit.toSpec) := by
   obtain ⟨es, h1, h2, h3⟩ := replaceAll_ordered_disjoint m matchLen ins n hu hwf hle hl
   exact ⟨es, h1, orderedFrom_mono (Nat.zero_le _) h2, fun e he => Nat.le_trans (h3 e he) hin⟩
+
+/-- **nothing else is touched**: applying the edits of `replace_all` to the document's text preserves
+every byte that lies outside all of them (at its shifted position `newPos`), in order — the
+library's replace-every-match call rewrites the outermost matches and nothing more. -/
+theorem replaceAll_preserves_outside (m : Tree → Bool) (matchLen : Tree → Option Nat) (ins : Tree → Bytes)
+    (src : Bytes) (n : Tree) (hu : n.UniqueIds) (hwf : RangesWF n) (hle : n.start ≤ n.stop)
+    (hin : n.stop ≤ src.length) (hl : LenInside n matchLen) :
+    ∃ es, replaceAll m matchLen ins n = .ok es ∧
+      ∀ i, Outside (es.map REdit.toSpec) i →
+        (spliceAll src (es.map REdit.toSpec))[newPos (es.map REdit.toSpec) i]? = src[i]? := by
+  obtain ⟨es, h1, h2⟩ := replaceAll_valid m matchLen ins src n hu hwf hle hin hl
+  exact ⟨es, h1, fun i hout => splice_preserves_outside src _ h2 i hout⟩
 
 /-- every edit belongs to one reported match: it starts at that node, is contained in it and
 carries the text generated for it; the matched nodes pass the matcher and none of them lies
